@@ -443,7 +443,7 @@ func c12Families(tier string) []explore.Family {
 		}
 	}})
 
-	fams = append(fams, c12LiveFamily())
+	fams = append(fams, c12LiveFamily(), c12ContextAPIFamily())
 	// "holds exactly the assigned value": a variable assigned from a literal or another variable can stand wherever
 	// that literal or variable stood - also where the KIND of the value matters (an integer or a float divisor, an
 	// index, a range bound, json, sorting next to strings), not only where it is printed
